@@ -55,6 +55,36 @@ Theorem C39_outside_unaffected : forall e s encl st o x,
 Proof. exact outside_unaffected. Qed.
 Print Assumptions C39_outside_unaffected.
 
+(* The function boundary.  A break / continue / return executed inside a called function - also
+   one whose name only a block of the CALLER has - never reaches the caller: the caller's frames
+   and exit number are what they were, and for the caller the call is an ordinary statement.
+   (well_named asks nothing of the name of a break or continue, so C39_cancel_refines_signals
+   covers programs with such jumps: the function is abandoned, the caller carries on.) *)
+Theorem C39_break_does_not_cross_function : forall e f b st o x,
+  c_stack (exec_stmt e (Call f b) {| c_stack := st; c_out := o; c_exit := x |}) = st /\
+  c_exit (exec_stmt e (Call f b) {| c_stack := st; c_out := o; c_exit := x |}) = x /\
+  snd (ref_stmt e (Call f b)) = SNone.
+Proof. exact break_does_not_cross_function. Qed.
+Print Assumptions C39_break_does_not_cross_function.
+
+Theorem C39_unresolved_break_kills_function_only : forall nm st,
+  (forall G, In G st -> name_eqb (f_name G) nm = false) -> brk_walk nm st = map kill st.
+Proof. exact unresolved_break_kills_function_only. Qed.
+Print Assumptions C39_unresolved_break_kills_function_only.
+
+(* the seeded witness: a helper says `break foreach`, its caller loops with foreach; the loop
+   runs all its iterations; an observation in which it stopped after the first is rejected *)
+Definition helper_breaks_callers_loop : block :=
+  BCons (Foreach 1 3 (BCons (Call 1 (BCons (Out 1) (BCons (If CTrue (BCons (Break NForeach) BNil)) (BCons (Out 2) BNil))))
+                     (BCons (Out 3) BNil)))
+        (BCons (Out 4) BNil).
+Example C39_function_boundary_nonvacuous :
+  well_named helper_breaks_callers_loop = true /\
+  run_cancel helper_breaks_callers_loop =
+    ([TOut 1; TExit 0; TOut 3; TOut 1; TExit 0; TOut 3; TOut 1; TExit 0; TOut 3; TOut 4], 0%Z) /\
+  spec_ok {| c_prog := helper_breaks_callers_loop; c_obs_out := [TOut 1; TOut 4]; c_obs_exit := 0%Z |} = false.
+Proof. vm_compute. repeat split. Qed.
+
 (* Headline: the model's observation satisfies the predicate the check evaluates. *)
 Theorem C39_model_meets_spec : forall main, well_named main = true ->
   spec_ok {| c_prog := main; c_obs_out := fst (run_cancel main); c_obs_exit := snd (run_cancel main) |} = true.
